@@ -834,11 +834,11 @@ Section Correct.
     intros Hi Hb. unfold pk_step. rewrite Hi, Hb. unfold pike_taken. destruct bi; reflexivity.
   Qed.
 
-  Lemma l1_dec fwd mn mx gr off bi (stepf : nat -> option (option nat)) gs lo hi :
+  Lemma l1_dec fwd mn mx gr off bi (stepf : nat -> option (option nat)) chk gs lo hi :
     nth_error (p_insns prog) off = Some (Loop1CharBody mn (max_val mx) gr) ->
     nth_error (p_insns prog) (S off) = Some bi ->
     (forall q, stepf q = match pike_taken bi fwd q with Ok r => Some r | Err _ => None end) ->
-    forall lf k q l t, l1_results stepf gs mn mx gr lf k q = Some l ->
+    forall lf k q l t, l1_results stepf chk gs mn mx gr lf k q = Some l ->
       ps_ip t = off -> ps_pos t = q -> ps_groups t = gs -> ps_l1 t = k ->
       exists ss, map obs ss = l /\ Forall (at_end t (off + 2) lo hi) ss /\ onto fwd [t] ss.
   Proof.
@@ -858,7 +858,8 @@ Section Correct.
     destruct (if k <? max_val mx then pike_taken bi fwd q else Ok None) as [e|[tp|]]; [discriminate| |]; cbn [bindR] in Hstep.
     - (* the body matched *)
       set (itst := ps_set_l1 (ps_set_pos t tp) (k + 1)) in *.
-      destruct (l1_results stepf gs mn mx gr lf (k + 1) tp) as [it|] eqn:Eit; [|discriminate].
+      destruct (chk q tp); [|discriminate].
+      destruct (l1_results stepf chk gs mn mx gr lf (k + 1) tp) as [it|] eqn:Eit; [|discriminate].
       destruct (IH (k + 1) tp it itst Eit) as (ssi & I1 & I2 & I3);
         try (unfold itst; simpl; first [reflexivity | congruence | assumption]).
       assert (I2' : Forall (at_end t (off + 2) lo hi) ssi).
@@ -953,7 +954,7 @@ Section Correct.
     destruct Hbody as (bi & -> & Hst).
     apply code_at_cons in Hcb as [Hib _].
     replace (off + length [Loop1CharBody mn match mx with Some v => v | None => USIZE_MAX end gr; bi])%nat with (off + 2)%nat by (simpl; lia).
-    eapply (l1_dec fwd mn mx gr off bi stepf gs); eauto.
+    eapply (l1_dec fwd mn mx gr off bi stepf _ gs); eauto.
   Qed.
 
   (* ---------------- class-set strings ---------------- *)
